@@ -8,7 +8,7 @@ on intervals.
 import sympy
 from fractions import Fraction
 
-from kernel.type import RealType
+from kernel.type import NatType, RealType
 from kernel import term
 from kernel.term import Term
 from kernel.thm import Thm
@@ -31,6 +31,21 @@ class SymPyException(Exception):
         return self.err
 
 
+def require(cond, denoms):
+    """cond is a condition on the arguments of a function (for example
+    x >= 0 for sqrt x) outside of which the HOL function and the SymPy
+    function differ. It must be true, unless the list denoms is
+    provided: then it is appended to denoms, and the caller must make
+    sure that it holds.
+
+    """
+    if cond == True:
+        return
+    elif cond == False or denoms is None:
+        raise SymPyException("convert: unable to show %s" % cond)
+    else:
+        denoms.append(cond)
+
 def convert(t, denoms=None):
     """Convert term t to SymPy term.
 
@@ -40,6 +55,11 @@ def convert(t, denoms=None):
     unless the list denoms is provided: then the other denominators
     are appended to denoms, and the caller must make sure that they
     are nonzero.
+
+    Likewise sqrt, log and real powers are real-valued total functions
+    in HOL (for example sqrt (-x) = -sqrt x), while SymPy continues
+    them to complex numbers: the conditions under which they agree
+    are handled in the same way (see require).
 
     """
     if t.is_var():
@@ -58,6 +78,9 @@ def convert(t, denoms=None):
     elif t.is_plus():
         return convert(t.arg1, denoms) + convert(t.arg, denoms)
     elif t.is_minus():
+        if t.get_type() == NatType:
+            # Subtraction on natural numbers is truncated
+            return sympy.Max(convert(t.arg1, denoms) - convert(t.arg, denoms), 0)
         return convert(t.arg1, denoms) - convert(t.arg, denoms)
     elif t.is_uminus():
         return -convert(t.arg, denoms)
@@ -78,19 +101,25 @@ def convert(t, denoms=None):
     elif t.is_nat_power() and t.arg.is_number():
         return convert(t.arg1, denoms) ** t.arg.dest_number()
     elif t.is_real_power():
-        return convert(t.arg1, denoms) ** convert(t.arg, denoms)
+        base, p = convert(t.arg1, denoms), convert(t.arg, denoms)
+        require(base >= 0 if p.is_nonnegative else base > 0, denoms)
+        return base ** p
     elif t.is_comb('real_closed_interval', 2):
         return sympy.Interval(convert(t.arg1, denoms), convert(t.arg, denoms))
     elif t.is_comb('real_open_interval', 2):
         return sympy.Interval.open(convert(t.arg1, denoms), convert(t.arg, denoms))
     elif t.is_comb('sqrt', 1):
-        return sympy.sqrt(convert(t.arg, denoms))
+        arg = convert(t.arg, denoms)
+        require(arg >= 0, denoms)
+        return sympy.sqrt(arg)
     elif t.is_comb('abs', 1):
         return sympy.Abs(convert(t.arg, denoms))
     elif t.is_comb('exp', 1):
         return sympy.exp(convert(t.arg, denoms))
     elif t.is_comb('log', 1):
-        return sympy.log(convert(t.arg, denoms))
+        arg = convert(t.arg, denoms)
+        require(arg > 0, denoms)
+        return sympy.log(arg)
     elif t.is_comb('sin', 1):
         return sympy.sin(convert(t.arg, denoms))
     elif t.is_comb('cos', 1):
@@ -163,6 +192,7 @@ def solve_with_interval(goal, cond):
     interval = convert(cond.arg)
 
     # Denominators appearing in the goal: must be nonzero on the interval.
+    # Conditions (see require): must hold on the interval.
     denoms = []
 
     def only_var(e):
@@ -175,7 +205,10 @@ def solve_with_interval(goal, cond):
             if not only_var(denom):
                 return False
             try:
-                if solveset_wrapper(denom, var, interval) != sympy.EmptySet:
+                if denom.is_Relational:
+                    if solveset_wrapper(denom, var, interval) != interval:
+                        return False
+                elif solveset_wrapper(denom, var, interval) != sympy.EmptySet:
                     return False
             except (TypeError, RecursionError, NotImplementedError):
                 return False
